@@ -218,7 +218,8 @@ Section Concrete.
   (* ---- the contributed traversers enumerate the subtree in their documented orders ---- *)
   Theorem c_traverse_bf_abs F n : In n (ids t) -> c_traverse_bf c ftrue F n = Ok (filter F (a_bf_ttb t n)).
   Proof. intros Hn. unfold c_traverse_bf, h_traverse_bf. walk traverse_bf_spec. pose proof fu_walk. lia. Qed.
-  Theorem c_traverse_df_btt_abs n : In n (ids t) -> c_traverse_df_btt c ftrue ftrue n = Ok (a_df_btt t n).
+  Theorem c_traverse_df_btt_abs F n : In n (ids t) ->
+    c_traverse_df_btt c ftrue F n = Ok (filter (fun x => N.eqb x n || F x) (a_df_btt t n)).
   Proof. intros Hn. unfold c_traverse_df_btt, h_traverse_df_btt. walk traverse_df_btt_spec. exact fu_ge. Qed.
 
   (* ---- the sorter: the offered tag nodes, each once, in document order ---- *)
@@ -229,18 +230,6 @@ Section Concrete.
   Theorem c_following_passed F n : In n (ids t) -> c_iterate_following c ftrue F n = Ok (filter F (a_following t n)).
   Proof.
     intros Hn. rewrite (c_following_abs ftrue F n up_closed_ftrue Hn). reflexivity.
-  Qed.
-  (* traverse_df_ltr_btt with passed filters: exactly the post-order through matching children ... *)
-  Theorem c_traverse_df_btt_filtered F n : In n (ids t) -> c_traverse_df_btt c ftrue F n = Ok (a_df_btt_pruned t F n).
-  Proof. intros Hn. unfold c_traverse_df_btt, h_traverse_df_btt. walk traverse_df_btt_filtered_spec. exact fu_ge. Qed.
-  (* ... which is the restriction of the post-order (the given root kept) when the filter is closed upwards *)
-  Theorem c_traverse_df_btt_partial F n : up_closed_b F t = true -> In n (ids t) ->
-    c_traverse_df_btt c ftrue F n = Ok (filter F (removelast (a_df_btt t n)) ++ [n]).
-  Proof.
-    intros Hg Hn. rewrite (c_traverse_df_btt_filtered F n Hn). f_equal.
-    destruct (a_sub_of_id t Tnd n Hn) as [s [Hs [E Hsub]]]. unfold a_df_btt_pruned, a_df_btt. rewrite Hsub.
-    rewrite (post_pruned_filter F s (hid_closed_sub F t s (up_closed_b_spec F t Hg) Hs)).
-    destruct s as [i p kids]. rewrite post_ids_unfold. cbn [ikids iid] in *. subst i. rewrite removelast_last. reflexivity.
   Qed.
 
   (* every routine is a function of the one tree `t` *)
@@ -284,12 +273,6 @@ Qed.
 Lemma depth_parentless_comment : c_depth (CEl 0%N (KComment []) None no_chain []) ftrue 0%N = Ok 0%nat.
 Proof. reflexivity. Qed.
 
-(* traverse_df_ltr_btt with a passed filter is NOT the restriction of the unfiltered sequence: <r><a>x</a></r> with the
-   filter "text nodes": the text node x is not reached because its parent a does not match (finding C05-df-btt-prunes) *)
-Lemma df_btt_filtered_refuted : exists c F n,
-  el_ok c = true /\ nodupb (cel_ids c) = true /\ In n (ids (abs_el [] c)) /\
-  c_traverse_df_btt c ftrue F n <> Ok (filter F (removelast (a_df_btt (abs_el [] c) n)) ++ [n]).
-Proof.
-  exists refute_tree, (fun i => N.eqb i 2), 0%N. split; [reflexivity|]. split; [reflexivity|]. split; [left; reflexivity|].
-  vm_compute. discriminate.
-Qed.
+(* regression (finding C05-df-btt-prunes, repaired in b0bcfbb): <r><a>x</a></r>, filter "text nodes": root and x *)
+Lemma df_btt_filtered_regression : c_traverse_df_btt refute_tree ftrue (fun i => N.eqb i 2) 0%N = Ok [2; 0]%N.
+Proof. vm_compute. reflexivity. Qed.
